@@ -298,11 +298,14 @@ def ioInterpret (cfg : IoCfg) (cp : Option Nat) (tol : Bool) (d : Bytes) : Py SD
   let p ← ioCpEcho cp d
   ioDecode e tol did p.1 (d.drop p.2)
 
-def ioClient (cfg : IoCfg) (did : Nat) (cp : Option Nat) (tol : Bool) (d : Bytes) : Py SData := do
-  let r ← ioInterpret cfg cp tol d
-  match r with
-  | .io e ce _ => if e != did then throw .unexpected else if cp != ce then throw .unexpected else pure r
-  | _ => pure r
+/-- `io_control`: a missing configuration for an echoed identifier that was not the requested one is an unexpected response
+    (`ConfigError.key != did`); then the identifier and control-parameter echoes are compared -/
+def ioClient (cfg : IoCfg) (did : Nat) (cp : Option Nat) (tol : Bool) (d : Bytes) : Py SData :=
+  match ioInterpret cfg cp tol d with
+  | .error .config => if fromBE (d.take 2) == did then throw .config else throw .unexpected
+  | .error e => throw e
+  | .ok (.io e ce x) => if e != did then throw .unexpected else if cp != ce then throw .unexpected else pure (.io e ce x)
+  | .ok other => pure other
 
 /-! ### RequestFileTransfer -/
 
@@ -373,6 +376,11 @@ def rftClient (moop : Nat) (dfiSent : Option Nat) (tol : Bool) (d : Bytes) : Py 
     match d[0]? with
     | some m => if m.toNat != moop then throw .unexpected else throw .invalid
     | none => throw .invalid
+  | .error .notImpl =>
+    -- a length field wider than 8 bytes, met after the echo byte was read
+    match d[0]? with
+    | some m => if m.toNat != moop then throw .unexpected else throw .notImpl
+    | none => throw .notImpl
   | .error e => throw e
   | .ok (.rft m ml dfi fs di fp) =>
     if m != moop then throw .unexpected
